@@ -11,7 +11,7 @@ CFG = {
                 nontrivial=lambda p, t: t.count(" L") + t.startswith("L") >= 2 and bool(re.search(r"gconn \d+ \d+ -?\d+ 1 |block \d+ 1|cdisc|gclear", p))),
     "C02": dict(profiles=[("lifetime", 5), ("reentrant", 3), ("slots", 1)],
                 rule="a trackable referenced by at least one slot functor is destroyed (or assigned/moved/notified) while that slot or a copy exists, and a query or emission follows",
-                nontrivial=lambda p, t: bool(re.search(r"snew \d+ [iv] \d+ [mnbtu] [123]", p)) and bool(re.search(r"tdel|tasg|tmasg|tnot", p))),
+                nontrivial=lambda p, t: bool(re.search(r"snew \d+ [iv] \d+ [mnkbtu] [123]", p)) and bool(re.search(r"tdel|tasg|tmasg|tnot", p))),
     "C03": dict(profiles=[("reentrant", 8), ("chain", 1)],
                 rule="a slot body performs at least one action (connect, disconnect, clear, block, destroy, emit) while an emission is running (an operation event nested inside an E..L pair of the model trace)",
                 nontrivial=lambda p, t: bool(re.search(r"S \d+ [ca] \d+ [a-z]", p)) and bool(re.search(r"E\d+,\d+ (?!L)", t))),
@@ -80,7 +80,13 @@ def correspondence(v, pid, progs, exe, model_exe, label="generated"):
     pins = corr.PINS[pid]
     t0 = time.time()
     mout = corr.run_model(model_exe, "sig", progs)
-    keep = [(p, m) for p, m in zip(progs, mout) if not m.startswith(("ERR FUEL", "ERR UNSUPPORTED", "ERR STACK")) and len(m) < 20000]
+    # programs that exhaust the default nesting fuel get one more chance with a deep budget
+    deep = [k for k, m in enumerate(mout) if m.startswith("ERR FUEL")]
+    if deep:
+        again = corr.run_model(model_exe, "sig", [progs[k] for k in deep], fuel=320)
+        for k, m in zip(deep, again):
+            mout[k] = m
+    keep = [(p, m) for p, m in zip(progs, mout) if not m.startswith(("ERR FUEL", "ERR UNSUPPORTED", "ERR STACK")) and len(m) < 40000]
     model_errs = [(p, m) for p, m in zip(progs, mout) if m.startswith(("ERR UAF", "ERR DANGLING", "ERR DOUBLE", "PARSE"))]
     run = [(p, m) for p, m in keep if not m.startswith(("ERR", "PARSE"))]
     iout = corr.run_impl(exe, "sig", [p for p, _ in run])
